@@ -240,7 +240,8 @@ func runC07UBrace(t *fw.T) { // \u{H..H}: boundaries (case 0) and a 4096-point s
 	}
 	var lits []litCase
 	for _, cp := range cps {
-		forms := []string{fmt.Sprintf(`\u{%x}`, cp), fmt.Sprintf(`\u{%X}`, cp), fmt.Sprintf(`\u{%06x}`, cp)}
+		// any number of leading zeros is allowed inside the braces
+		forms := []string{fmt.Sprintf(`\u{%x}`, cp), fmt.Sprintf(`\u{%X}`, cp), fmt.Sprintf(`\u{%06x}`, cp), fmt.Sprintf(`\u{%07x}`, cp), fmt.Sprintf(`\u{%08X}`, cp), fmt.Sprintf(`\u{%016x}`, cp)}
 		if cp < 0x10000 {
 			forms = append(forms, fmt.Sprintf(`\u{%04x}`, cp), fmt.Sprintf(`\u{0%x}`, cp))
 		}
@@ -262,6 +263,12 @@ func runC07ASCII(t *fw.T) { // every ASCII byte raw, and every ASCII byte after 
 				lits = append(lits, litCase{q + ch + q, q + "/raw byte " + catOfCode(b)}, litCase{q + "k" + ch + "k" + q, q + "/raw byte " + catOfCode(b)})
 			}
 			lits = append(lits, litCase{q + `\` + ch + q, q + "/backslash + byte"}, litCase{q + "k\\" + ch + "k" + q, q + "/backslash + byte"})
+			if ch != "\n" && ch != "\r" {
+				// ... and followed by what the \x / \u / octal scanners take for their digits: only the lower-case letters start
+				// those escapes, every other byte stands for itself whatever follows it
+				lits = append(lits, litCase{q + `\` + ch + "41" + q, q + "/backslash + byte + digits"}, litCase{q + `\` + ch + "0041" + q, q + "/backslash + byte + digits"},
+					litCase{q + `\` + ch + "{41}" + q, q + "/backslash + byte + digits"}, litCase{q + "k\\" + ch + "bcd" + q, q + "/backslash + byte + digits"})
+			}
 		}
 		t.Distinct(fmt.Sprintf("a%02x", b))
 	}
@@ -311,7 +318,7 @@ func randomEscape(r *rand.Rand) string {
 	case k <= 1 && cp < 0x10000:
 		return fmt.Sprintf([]string{`\u%04x`, `\u%04X`}[r.IntN(2)], cp)
 	}
-	return fmt.Sprintf([]string{`\u{%x}`, `\u{%X}`, `\u{%04x}`, `\u{%06X}`}[r.IntN(4)], cp)
+	return fmt.Sprintf([]string{`\u{%x}`, `\u{%X}`, `\u{%04x}`, `\u{%06X}`, `\u{%07x}`, `\u{%010X}`}[r.IntN(6)], cp)
 }
 
 func runC07Random(t *fw.T) {
@@ -452,6 +459,43 @@ func runC07Sequences(t *fw.T) {
 	}
 }
 
+// large programs: hundreds of literal statements (40 to 130 KB of compact output on one line); every literal still
+// denotes its value when the output is that long. Literals hold statement-like text (`;`, braces, quotes, comment
+// starts) so that nothing that scans the output for statement ends can take a literal's content for code.
+func runC07Large(t *fw.T) {
+	r := t.Rand()
+	var sb strings.Builder
+	sb.WriteString("v = \"\"\n")
+	target := 40000 + r.IntN(90000)
+	tplP := []string{"a;", "; ", "b = 1;\n", "}\n", "  \n", "x", "'", "\"", "//;", "{", "\\`;", "/*", "let c;"}
+	strP := []string{"a;", ";", "b = 1; ", "}", "\\n", "x", `\"`, `\'`, "//;", "{", "`", "/*", "\\\\", "let c;", ";;"}
+	n := 0
+	for sb.Len() < target {
+		var lit strings.Builder
+		k := 1 + r.IntN(8)
+		if r.IntN(3) == 0 {
+			lit.WriteString("`")
+			for i := 0; i < k; i++ {
+				lit.WriteString(tplP[r.IntN(len(tplP))])
+			}
+			lit.WriteString("`")
+		} else {
+			lit.WriteString(`"`)
+			for i := 0; i < k; i++ {
+				lit.WriteString(strP[r.IntN(len(strP))])
+			}
+			lit.WriteString(`"`)
+		}
+		fmt.Fprintf(&sb, "v = v + %s + %d\n", lit.String(), n)
+		n++
+	}
+	sb.WriteString("v")
+	t.Count("literals_in_large_programs", n)
+	t.Feature("size of large literal programs (x10 KB)", fmt.Sprint(sb.Len()/10240*10))
+	checkLiterals(t, []litCase{{sb.String(), "sequence/large program"}}, "large")
+	t.Distinct(sb.String())
+}
+
 func runC07Contexts(t *fw.T) {
 	r := t.Rand()
 	var base []litCase
@@ -540,6 +584,7 @@ func init() {
 			{Name: "literal-positions", Quick: 1000, Thorough: 6000, Run: runC07Contexts},
 			{Name: "adjacent-literals", Quick: 800, Thorough: 5000, Run: runC07Adjacent},
 			{Name: "literal-sequences", Quick: 800, Thorough: 5000, Run: runC07Sequences},
+			{Name: "large-programs", Quick: 48, Thorough: 400, Run: runC07Large},
 		},
 	})
 }
